@@ -349,5 +349,5 @@ def build(tier):
         "outside": ["more than two queued lines", "asyncio loop scheduling between lines",
                     "streams longer than the bound"],
         "stubs": ["connection object -> recording fake"],
-        "budget_s": 1500 if q else 9000,
+        "budget_s": 3000 if q else 18000,
     }
